@@ -11,6 +11,7 @@ import (
 	"sync"
 	"sync/atomic"
 	"testing"
+	"time"
 
 	"github.com/db47h/decimal"
 	"pgregory.net/rapid"
@@ -288,6 +289,15 @@ func genC15(t *rapid.T) (c C15Case) {
 			}
 			if c.Op == "float32" {
 				f = float64(float32(f))
+				if rapid.IntRange(0, 2).Draw(t, "f32bits") == 0 {
+					// float32 bit patterns drawn directly: subnormals and the lowest binades (the longest decimal
+					// expansions a float32 has: 112 digits at 0x007fffff), full and sparse mantissas, the top binade
+					bits := rapid.SampledFrom([]uint32{0x007fffff, 0x00ffffff, 0x00800000, 0x00800001, 0x00000001, 0x00000003, 0x007ffffe, 0x00fffffe, 0x017fffff, 0x7f7fffff, 0x7f7ffffe, 0x3f800001, 0x00400001}).Draw(t, "f32edge")
+					if rapid.Bool().Draw(t, "f32rand") {
+						bits = rapid.Uint32Range(1, 0x02ffffff).Draw(t, "f32low")
+					}
+					f = float64(math.Float32frombits(bits))
+				}
 			}
 			c.X = float64Spec(f)
 			c.X.M = h.GenMode(t, "xm")
@@ -446,7 +456,11 @@ func checkC15(c C15Case, o *h.Obs) *h.Fail {
 			}
 		} else {
 			f := c.bigFloat()
-			z.SetFloat(f)
+			// (milliseconds at most for what is generated here; an implementation that leaves its exact path for a short
+			// value carried at an enormous precision works at hundreds of millions of digits and does not come back)
+			if !h.Returns(120*time.Second, func() { z.SetFloat(f) }) {
+				return h.Failf("no-return", "SetFloat of a %d-bit big.Float (%d significant bits, binary exponent %d) into a receiver of precision %d has not returned after 120 s", f.Prec(), f.MinPrec(), f.MantExp(nil), c.P)
+			}
 			neg, isInf, isZero = f.Signbit(), f.IsInf(), f.Sign() == 0 && !f.IsInf()
 			if !isInf && !isZero {
 				exactRat, _ = f.Rat(nil)
@@ -1005,7 +1019,33 @@ func c15SetFloatIntoMaxPrec(t *testing.T) {
 	for _, e := range es {
 		f := new(big.Float).SetMantExp(big.NewFloat(1.5), e) // 3 * 2^(e-1)
 		z := new(decimal.Decimal).SetPrec(decimal.MaxPrec).SetMode(decimal.ToZero)
-		z.SetFloat(f)
+		{
+			// (2 s / 9 s normally. An implementation that leaves its exact path here works at four billion digits and
+			// does not come back: 150 s of wall-clock time and 75 s of CPU time of this process are the limit, as in C05)
+			done := make(chan interface{}, 1)
+			go func() {
+				defer func() { done <- recover() }()
+				z.SetFloat(f)
+			}()
+			start, cpu0 := time.Now(), processCPU()
+			tick := time.NewTicker(500 * time.Millisecond)
+		wait:
+			for {
+				select {
+				case r := <-done:
+					tick.Stop()
+					if r != nil {
+						panic(r)
+					}
+					break wait
+				case <-tick.C:
+					if time.Since(start) >= 150*time.Second && processCPU()-cpu0 >= 75*time.Second {
+						tick.Stop()
+						h.ReportGridFail(t, "C15", h.Failf("no-return", "SetFloat(3*2^%d) into a receiver of precision MaxPrec has not returned after %v", e-1, time.Since(start).Round(time.Second)), mustJSON(C15Case{Op: "setfloat", FM: "3", FE: e - 1, FP: 53, P: decimal.MaxPrec, M: uint8(decimal.ToZero)}))
+					}
+				}
+			}
+		}
 		var wantDigits string
 		var wantExp int64
 		if e > 0 {
